@@ -197,7 +197,7 @@ def build(I, sort, hint):
         for k, kind in sort.fields.items():
             es = z3.IntSort() if kind == 'dt' else sort_of(kind)
             fields[k] = (kind, z3.Const(I.p.fresh_name(f'{hint}_{k}'), z3.ArraySort(z3.IntSort(), es)))
-        return SRecList(n, fields, sort.cls)
+        return SRecList(n, fields, I.repo.find(sort.cls) if isinstance(sort.cls, str) else sort.cls)
     if isinstance(sort, Map):
         ks, vs = sort_of(sort.keykind), sort_of(sort.valkind)
         has = z3.Function(I.p.fresh_name(hint + '_has'), ks, z3.BoolSort())
